@@ -57,6 +57,16 @@ def run(R):
         fake = S.rs(R.rng, S.A64, digest_len[m])
         for tail in (b"", b"$", b"$$", b"$x", b"$" + fake, b"$" + fake + b"$", b"$" + fake + b"$x", b"$$" + fake, b"$#junk%,(x)$", b"$abc$def$", b"$" + fake + b"x", fake):
             ops.append(CS.crypt_op(R.rng.choice(["rn", "r"]), 0, b"pw", base + tail)); meta.append((m, "structure:" + ("bare" if not tail else "tail"), 2, len(base) + len(tail)))
+    # printable characters outside every method's alphabets (and outside the five the generic filter refuses) at every position of a canonical
+    # setting: what a method's own validation lets through ends up verbatim in its result (seeded/C06f: bsdicrypt accepting `^` in a salt position)
+    odd = [c for c in range(0x21, 0x7f) if not chr(c).isalnum() and c not in b"./$!*:;\\"]
+    for m in S.METHODS:
+        muts = S.mutations(S.CANON[m], S.CANON_DANGER.get(m, []), values=odd)
+        cheap = m in ("descrypt", "bigcrypt", "bsdicrypt", "md5crypt", "nt")
+        # (a changed tag character may select another method - `_b............` is a bsdicrypt setting - such settings belong to that method's stream)
+        muts = [st for st in muts if CS.method_of(st) == CS.method_of(S.CANON[m])]
+        for st in (muts if (cheap or not quick) else R.rng.sample(muts, min(len(muts), 40))):
+            ops.append(CS.crypt_op(R.rng.choice(["rn", "r"]), 0, b"pw", st)); meta.append((m, "odd-character", 2, len(st)))
     ops, meta, il, ml = CS.run_budgeted(R, ops, meta, group_starts=list(range(len(ops))))
     diffs = compare(R, ops, il, ml, CS.proj_crypt, "hash shape")
     bad = []
